@@ -11,6 +11,8 @@ import (
 	"strconv"
 	"strings"
 	"time"
+
+	"golang.org/x/tools/go/ssa"
 )
 
 // PropertySpec binds a property to the rules that decide its structural clauses.
@@ -115,6 +117,7 @@ func Check(spec *PropertySpec, tier string, out *os.File) int {
 	var fatal []string
 	var notes []string
 	perRule := map[string]map[string]int{}
+	anchored := map[string]bool{}
 	funcsAnalysed := 0
 	archs := []string{"amd64"}
 	for _, rn := range spec.Rules {
@@ -143,10 +146,28 @@ func Check(spec *PropertySpec, tier string, out *os.File) int {
 			for _, f := range res.Fatal {
 				fatal = append(fatal, fmt.Sprintf("%s[%s]: %s", rn, arch, f))
 			}
-			if len(res.Obligations) < r.Min {
+			floor := r.Min
+			if arch == "amd64" {
+				// anchors (see anchors.go): where the rule found its constructs on the reference tree
+				aobs, anotes, err := AnchorObligations(progCache[arch], rn, res)
+				if err != nil {
+					fatal = append(fatal, "anchors.txt: "+err.Error())
+				}
+				if listed, _ := anchorsOf(rn); len(listed) > 0 {
+					floor = (r.Min + 1) / 2
+					anchored[rn] = true
+				}
+				all = append(all, aobs...)
+				for _, n := range anotes {
+					notes = append(notes, fmt.Sprintf("%s[%s]: %s", rn, arch, n))
+				}
+			} else if anchored[rn] {
+				floor = (r.Min + 1) / 2
+			}
+			if len(res.Obligations) < floor {
 				// a rule that lost targets it had on the reference tree cannot pass: reported as a violation of its own
 				all = append(all, Obligation{Rule: rn, Key: rn + "|instance-floor|" + arch, Pos: "-", Status: Violated, Verdict: "violated", Nontrivial: true,
-					Detail: fmt.Sprintf("instance floor: the rule found %d instances, the minimum confirmed on the reference tree is %d: constructs the rule used to check have disappeared or changed shape so that they are no longer recognised", len(res.Obligations), r.Min)})
+					Detail: fmt.Sprintf("instance floor: the rule found %d instances, the floor is %d: constructs the rule used to check have disappeared or changed shape so that they are no longer recognised", len(res.Obligations), floor)})
 			}
 			for _, n := range res.Notes {
 				notes = append(notes, fmt.Sprintf("%s[%s]: %s", rn, arch, n))
@@ -197,6 +218,59 @@ func Check(spec *PropertySpec, tier string, out *os.File) int {
 				newViol = append(newViol, o)
 			}
 		}
+	}
+
+	// a listed finding that moved: the violating construct was wrapped into a helper G that the listed function F now
+	// calls (F's own obligation no longer reproduces, G shows the same construct). That is the listed defect at a new
+	// address, not a different violation; anything else - another construct, a G that no formerly violating function
+	// calls - is new.
+	var movedViol []Obligation
+	if p := progCache["amd64"]; p != nil && len(newViol) > 0 {
+		stripOrd := func(c string) string {
+			if i := strings.LastIndex(c, "#"); i >= 0 {
+				if _, err := strconv.Atoi(c[i+1:]); err == nil {
+					return c[:i]
+				}
+			}
+			return c
+		}
+		split := func(key string) (rule, fn, construct string) {
+			parts := strings.SplitN(key, "|", 3)
+			if len(parts) < 3 {
+				return "", "", ""
+			}
+			return parts[0], parts[1], stripOrd(parts[2])
+		}
+		idx := p.funcIndex()
+		var rest []Obligation
+		for _, o := range newViol {
+			moved := false
+			if o.Status == Violated {
+				r, g, c := split(o.Key)
+				var ks []string
+				for k := range known {
+					ks = append(ks, k)
+				}
+				sort.Strings(ks)
+				for _, k := range ks {
+					kr, f, kc := split(k)
+					if seenKnown[k] || kr != r || kc != c || f == g || idx[f] == nil || idx[g] == nil {
+						continue
+					}
+					if reachesHost(p, idx[f], map[string]bool{g: true}, 2, map[*ssa.Function]bool{}) != "" {
+						fmt.Fprintf(out, "KNOWN-FINDING: property=%s %s (%s) %s [the listed site %s now reaches this construct through %s]\n", spec.ID, k, o.Pos, known[k].Text, f, g)
+						seenKnown[k] = true
+						moved = true
+					}
+				}
+			}
+			if moved {
+				movedViol = append(movedViol, o)
+			} else {
+				rest = append(rest, o)
+			}
+		}
+		newViol = rest
 	}
 
 	exit := 0
@@ -277,7 +351,7 @@ func Check(spec *PropertySpec, tier string, out *os.File) int {
 		"rule_counts":         perRule,
 		"obligations":         len(all),
 		"discharged":          discharged,
-		"known_findings":      len(knownViol),
+		"known_findings":      len(knownViol) + len(movedViol),
 		"new_violations":      len(seenNew),
 		"evaluations":         len(all),
 		"distinct_nontrivial": nontrivial,
@@ -307,7 +381,7 @@ func Check(spec *PropertySpec, tier string, out *os.File) int {
 		return 2
 	}
 	fmt.Fprintf(out, "property=%s tier=%s obligations=%d discharged=%d known_findings=%d new_violations=%d analysis_failures=%d wall=%.1fs\n",
-		spec.ID, tier, len(all), discharged, len(knownViol), len(seenNew), len(fatal), Since(start))
+		spec.ID, tier, len(all), discharged, len(knownViol)+len(movedViol), len(seenNew), len(fatal), Since(start))
 	return exit
 }
 
